@@ -68,3 +68,5 @@ func (r *Rng) Perm(n int) []int {
 	}
 	return p
 }
+
+func mathLdexp(f float64, e int) float64 { return math.Ldexp(f, e) }
